@@ -633,6 +633,18 @@ func (h *Hook) proc() (ok bool) {
 	var ttls []time.Duration
 	start := time.Now()
 	err := h.db.Update(func(tx *buntdb.Tx) error {
+		// A hook that has been closed (deleted or replaced) must not take
+		// anything from the queue any more: entries are selected by hook name,
+		// so a sender that was past its closed test when the hook was deleted
+		// would otherwise grab the messages of a new hook with the same name
+		// and send them to the old endpoints. Closing happens before the new
+		// hook can queue anything, so testing inside the transaction is enough.
+		h.cond.L.Lock()
+		closed := h.closed
+		h.cond.L.Unlock()
+		if closed {
+			return nil
+		}
 		// get keys and vals
 		err := tx.AscendGreaterOrEqual("hooks",
 			h.query, func(key, val string) bool {
